@@ -12,7 +12,7 @@ func init() {
 		technique: "ownership/typestate rule on pooled objects over the CFG: no use of a context after it was transferred to a mailbox; a response channel is pooled only on paths that received from it; reply send dominated by a won CAS; drain before pooling; timer release on every exit",
 		explanation: "Decides the ownership protocol of the pooled ReceiveContext/GrainContext and response channel in PID.Ask, package Ask, actorSystem.handleRemoteAsk and the grain ask path (localSend): (1) use-after-transfer: after the context was handed to doReceive / grainPID.receive (the mailbox owns and recycles it) no path uses the context variable again — the response channel must be read into a local before the transfer; (2) a response (or error) channel is returned to the pool only on paths on which the caller received from one of the request's channels (the responder is done with them); on timeout/cancel paths it is not pooled; (3) Response (actor and grain): the send on the reply channel is reachable only over the won edge of responseClosed.CompareAndSwap(false,true) and is a non-blocking select send; (4) putResponseChannel / putErrorChannel drain the channel on every path before offering it to the pool; (5) every timers.Get is matched by timers.Put on every exit; (6) the context's build() resets responseClosed and takes a fresh/pooled channel for every non-async send.",
 		assumptions: []string{"reply loss or misdelivery that would need a schedule inside the Go runtime's channel operations", "user code calling Response twice or keeping a ReceiveContext beyond its handler", "cloneContext'ed contexts (stash) share the response channel with their original by design"},
-		minObl:     24,
+		minObl:     25,
 		run:        runC15,
 	})
 }
